@@ -374,6 +374,12 @@ class Exec:
             return z3.And(*[self.equal(p, q, st, node) for p, q in zip(x.items, y.items)]) if x.items else z3.BoolVal(True)
         if isinstance(x, ClsV) and isinstance(y, ClsV):
             return z3.BoolVal(x.name == y.name)
+        if isinstance(x, (ClsV, ChoiceV)) and isinstance(y, (ClsV, ChoiceV)):
+            ox = x.options if isinstance(x, ChoiceV) else [(z3.BoolVal(True), x)]
+            oy = y.options if isinstance(y, ChoiceV) else [(z3.BoolVal(True), y)]
+            if all(isinstance(v, ClsV) for _, v in ox + oy):
+                hits = [z3.And(g1, g2) for g1, v1 in ox for g2, v2 in oy if v1.name == v2.name]
+                return z3.Or(*hits) if hits else z3.BoolVal(False)
         if isinstance(x, MapV) and isinstance(y, MapV):
             return x.arr == y.arr
         if isinstance(x, ObjV) and isinstance(y, ObjV):
